@@ -1,5 +1,5 @@
 (* Model/C05Run.v - case type and checker evaluated on harness-generated cases (C05) *)
-From ReqV Require Export Lib.Bytes Lib.BigEndian Model.QuicVarint Model.H2Frame Model.H3Frame.
+From ReqV Require Export Lib.Bytes Lib.BigEndian Model.QuicVarint Model.H2Frame Model.H3Frame Model.H2Meta.
 Open Scope N_scope.
 
 
@@ -9,6 +9,8 @@ Inductive c05_case :=
 | VarintDec (input : bytes) (obs_parse : vi_res) (obs_read : option (N * bytes))
 | H2Read (max_read : N) (input : bytes) (obs : list (res frame))
 | H2Write (c : wcall) (obs : wres)
+(* ReadFrame with ReadMetaHeaders: limit, stream, per fragment (length, fields completed in it) *)
+| H2Meta (max_list sid : N) (frags : list (N * list hfield)) (obs : meta_res)
 (* HTTP/3: one ParseNext call on a reader holding input; the bytes left are compared on success *)
 | H3Next (input : bytes) (obs : h3res h3frame) (obs_rest : option bytes)
 (* dataFrame/headersFrame.Append (t = 0 / 1) *)
@@ -160,6 +162,12 @@ Definition c05_check (c : c05_case) : bool :=
   | H2Read mx i obs =>
       list_eqb res_eqb (read_frames (length obs) {| rs_last := 0; rs_max := set_max_read mx |} i) obs
   | H2Write c obs => wres_eqb (run_wcall c) obs
+  | H2Meta mx sid frags obs =>
+      match h2_meta mx sid frags, obs with
+      | MOk f t, MOk f' t' => list_eqb (fun a b => bytes_eqb (fst a) (fst b) && bytes_eqb (snd a) (snd b)) f f' && Bool.eqb t t'
+      | MErr e, MErr e' => h2err_eqb e e'
+      | _, _ => false
+      end
   | H3Next i obs rest =>
       let '(r, lft) := h3_parse_next i in
       h3res_frame_eqb r obs && match rest with Some x => bytes_eqb lft x | None => true end
